@@ -106,11 +106,12 @@ class SUnion(Sym):
 class SList:
     """static-length mutable list of values"""
 
-    def __init__(self, items):
+    def __init__(self, items, kind="list"):
         self.items = list(items)
+        self.kind = kind  # 'list' | 'bytes' (fixed-length byte string of symbolic ints)
 
     def __repr__(self):
-        return f"SList({self.items})"
+        return f"SList[{self.kind}]({self.items})"
 
 
 class SDict:
@@ -246,7 +247,7 @@ def pytype_name(v):
     if isinstance(v, tuple):
         return "tuple"
     if isinstance(v, SList):
-        return "list"
+        return v.kind
     if isinstance(v, SSeq):
         return {"gen": "generator"}.get(v.kind, v.kind)
     if isinstance(v, (SDict, SMap)):
